@@ -131,8 +131,21 @@ def direction_switch(ctx):
     ctx.decided("single-store", "ensures", len(stores) == 1, witness="%d stores" % len(stores))
     if stores:
         st = stores[0]
-        ok = ast.unparse(st.value).replace(" ", "") == "branch_pit[:,MDOTINIT]<-2e-11"
-        ctx.decided("switch-is-sign-of-flow", "ensures", ok, witness=ast.unparse(st))
+        # the stored expression is EVALUATED (not compared as text): for an arbitrary row it must be  m < -2e-11
+        try:
+            ev = E.Evaluator()
+            ev.path = E.Path()
+            env = E.Env(f.module, ev)
+            nb_ = z3.Int("NB")
+            bp_ = K.sym_pit("branch_pit", nb_, K.const("pandapipes.idx_branch", "branch_cols"))
+            env.set("branch_pit", bp_)
+            val = ev.eval(st.value, env)
+            r_ = z3.Int("r")
+            m_ = V.R(bp_.f(r_, K.const("pandapipes.idx_branch", "MDOTINIT")))
+            ctx.ob("switch-is-sign-of-flow", "ensures", [nb_ >= 1, r_ >= 0, r_ < nb_] + list(ev.path.facts),
+                   B(val.f(r_)) == (m_ < z3.RealVal("-2e-11")))
+        except Exception as e_:  # noqa
+            ctx.undecided("switch-is-sign-of-flow", "ensures", "the stored expression could not be evaluated: %s" % e_)
         first_call = min([n.lineno for n in ast.walk(f.node) if isinstance(n, ast.Call) and
                           ("adaption" in ast.unparse(n.func) or "calculate_derivatives_thermal" in ast.unparse(n.func))]
                          or [10 ** 6])
